@@ -2,4 +2,4 @@
 Assembled from the element part props/part_bucket.py (kinds 'tb', 'trtb')."""
 from vlib.composite import Composite
 
-PROP = Composite("C11", ["bucket"], n_quick=400, n_thorough=10000, case_timeout=20)
+PROP = Composite("C11", ["bucket"], extra_props_files=["Props/C11_Examples.v"], n_quick=400, n_thorough=10000, case_timeout=20)
